@@ -865,3 +865,292 @@ def register(gen, T):
             out.append(f"def {k} : Bool := {lb(v)}\n")
         out.append(T.footer("MslVecTables"))
         return "".join(out)
+
+    @gen("MslDupSites")
+    def msl_dup_sites():
+        """Where can the Metal back end write one IR operand more than once?  `ast::Expression` / `ir::Expression` are not
+        `Copy`, so Rust's ownership rules leave three ways: (a) an explicit copy (`.clone()`, `.cloned()`, `.to_vec()`,
+        `.to_owned()`, `vec![x; n]`, `repeat`) of a value that holds an expression, (b) running a generator twice on the
+        same IR operand inside one arm, (c) text built by `format!` (the exporter builds a syntax tree, never text).  This
+        inventory lists every copy site of the back end's files (a) and every arm that mentions the same generator call
+        twice (b); Thm/C02Dup.lean holds the reviewed classification.  For the one site that repeats an operand — the
+        struct half of the Cast arm — the guard is extracted as a table (constructor, which expression-typed fields the
+        guard recurses into, which it ignores) together with the constructors of `ir::Expression` and their fields."""
+        from rustsrc import ExtractError, fn_body, first_match, match_arms, enum_variants, normws, lean_str, matching, split_top
+        import sys
+        files = ["msl/src/generator.rs", "msl/src/generator/intrinsic_helpers.rs", "msl/src/generator/pipeline.rs", "msl/src/lib.rs",
+                 "msl/src/simplify_resource_subscript.rs", "msl/src/rewrite_mesh_output.rs", "ir/src/simplify_cbuffers.rs"]
+        out = [T.header("MslDupSites", files + ["ir/src/ir_expressions.rs"])]
+
+        def lb(b):
+            return "true" if b else "false"
+
+        def fn_spans(text):
+            """[(name, body start, body end)] of every `fn` with a body, nested ones included"""
+            spans = []
+            for m in re.finditer(r'\bfn\s+([A-Za-z_][A-Za-z0-9_]*)', text):
+                i = m.end()
+                while i < len(text):
+                    c = text[i]
+                    if c in '([':
+                        i = matching(text, i) + 1
+                        continue
+                    if c == '<':
+                        # generics: skip to the matching '>'
+                        depth, j = 0, i
+                        while j < len(text):
+                            if text[j] == '<':
+                                depth += 1
+                            elif text[j] == '>' and text[j - 1] != '-':
+                                depth -= 1
+                                if depth == 0:
+                                    break
+                            j += 1
+                        i = j + 1
+                        continue
+                    if c == '{':
+                        spans.append((m.group(1), i, matching(text, i)))
+                        break
+                    if c == ';':
+                        break
+                    i += 1
+            return spans
+
+        def enclosing_fn(spans, pos):
+            best = None
+            for name, a, b in spans:
+                if a <= pos <= b and (best is None or a > best[1]):
+                    best = (name, a, b)
+            return best
+
+        def receiver(text, end):
+            """the postfix expression that ends at `end` (exclusive): identifiers, paths, `.field`, `[..]`, `(..)`, leading `* &`"""
+            i = end
+            while i > 0:
+                c = text[i - 1]
+                if c.isalnum() or c in '_.:':
+                    i -= 1
+                elif c in ')]':
+                    depth, j = 0, i - 1
+                    while j >= 0:
+                        if text[j] in ')]':
+                            depth += 1
+                        elif text[j] in '([':
+                            depth -= 1
+                            if depth == 0:
+                                break
+                        j -= 1
+                    i = j
+                elif c == '?':
+                    i -= 1
+                elif c.isspace() and text[i] == '.':
+                    # a method chain broken over lines
+                    while i > 0 and text[i - 1].isspace():
+                        i -= 1
+                else:
+                    break
+            while i > 0 and text[i - 1] in '*&':
+                i -= 1
+            return normws(text[i:end])
+
+        copy_rx = re.compile(r'\.clone\(\)|\.cloned\(\)|\.to_vec\(\)|\.to_owned\(\)|\.clone_from\(|\bvec!\s*\[|\brepeat(?:_n)?\s*\(|\bClone::clone\s*\(|\.extend_from_slice\(|\.repeat\(')
+        sites = []
+        for rel in files:
+            text = T.src(rel)
+            spans = fn_spans(text)
+            for m in copy_rx.finditer(text):
+                tok = m.group(0)
+                if tok.startswith('vec!'):
+                    j = matching(text, m.end() - 1)
+                    inner = text[m.end():j]
+                    if len(split_top(inner, ';')) < 2:
+                        continue          # vec![a, b, c]: a list, nothing repeated
+                    what = "vec![" + normws(inner) + "]"
+                elif tok.startswith('.'):
+                    what = receiver(text, m.start()) + tok.rstrip('(') + ('(' if tok.endswith('(') and not tok.endswith('()') else '')
+                else:
+                    j = matching(text, m.end() - 1)
+                    what = normws(text[m.start():j + 1])
+                f = enclosing_fn(spans, m.start())
+                sites.append((rel, f[0] if f else "-", re.sub(r'\s+\.', '.', what)))
+        counted = {}
+        for s_ in sites:
+            counted[s_] = counted.get(s_, 0) + 1
+        out.append("/-- one explicit copy in the Metal back end: file, innermost function, the copied expression, how often this text occurs there -/\n"
+                   "structure CopySite where\n  file : String\n  fn : String\n  what : String\n  count : Nat\n  deriving DecidableEq, Repr\n\n")
+        out.append("def copySites : List CopySite := [\n" + ",\n".join(
+            f"  ⟨{lean_str(a)}, {lean_str(b)}, {lean_str(c)}, {n}⟩" for (a, b, c), n in sorted(counted.items())) + "\n]\n\n")
+
+        # (b) the same generator call twice inside one arm (innermost `=> { … }` block or function body)
+        gen_rx = re.compile(r'\bgenerate_(?:expression|invoke_simple|initializer|intrinsic_function|intrinsic_op|user_call)\s*\(')
+        twice = {}
+        for rel in ["msl/src/generator.rs", "msl/src/generator/intrinsic_helpers.rs", "msl/src/generator/pipeline.rs"]:
+            text = T.src(rel)
+            spans = fn_spans(text)
+            # every `=> {` block
+            arms = []
+            for m in re.finditer(r'=>\s*\{', text):
+                a = m.end() - 1
+                arms.append((a, matching(text, a)))
+            for m in gen_rx.finditer(text):
+                f = enclosing_fn(spans, m.start())
+                if not f or text[max(0, m.start() - 3):m.start()] == 'fn ':
+                    continue
+                j = matching(text, m.end() - 1)
+                call = normws(text[m.start():j + 1])
+                best = (f[1], f[2])
+                for a, b in arms:
+                    if best[0] < a <= m.start() <= b:
+                        best = (a, b)
+                # the head of the arm: the text before `=>` back to the previous `,` `{` or `}` at that level
+                head = "-"
+                if best != (f[1], f[2]):
+                    k = text.rfind('=>', 0, best[0] + 1)
+                    h = k
+                    depth = 0
+                    while h > 0:
+                        c = text[h - 1]
+                        if c in ')]':
+                            depth += 1
+                        elif c in '([':
+                            depth -= 1
+                        elif depth == 0 and c in ',{}':
+                            break
+                        h -= 1
+                    head = normws(text[h:k])
+                key = (rel, f[0], head, call, best[0])
+                twice[key] = twice.get(key, 0) + 1
+        rep = sorted((k[0], k[1], k[2], k[3], n) for k, n in twice.items() if n > 1)
+        out.append("/-- arms of the exporter in which the text of one generator call occurs more than once: file, function, arm, call, count -/\n"
+                   "def repeatedGeneratorCalls : List (String × String × String × String × Nat) := [\n" + ",\n".join(
+                       f"  ({lean_str(a)}, {lean_str(b)}, {lean_str(c)}, {lean_str(d)}, {n})" for a, b, c, d, n in rep) + "\n]\n\n")
+        # (c) text-building emission inside the expression generators
+        gm = T.src("msl/src/generator.rs")
+        ebody = fn_body(gm, "generate_expression")
+        out.append("/-- `generate_expression` builds syntax-tree nodes only: the number of `format!` / `write!` in its body -/\n"
+                   "def textBuildingInGenerateExpression : Nat := %d\n\n" % len(re.findall(r'\b(?:format|write|writeln)!', ebody)))
+
+        # ---- constructors of ir::Expression and which of their fields hold expressions
+        expr_rs = T.src("ir/src/ir_expressions.rs")
+        variants = enum_variants(expr_rs, "Expression")
+        slot = re.search(r'pub struct ConstructorSlot\s*\{([^}]*)\}', expr_rs)
+        if not slot or not re.search(r'\bexpr\s*:\s*Expression\b', slot.group(1)):
+            raise ExtractError("ConstructorSlot { expr: Expression } not found")
+        vrows = []
+        for name, payload in variants:
+            fields = [normws(x) for x in split_top(payload.strip()[1:-1], ',') if x.strip()] if payload.strip().startswith('(') else []
+            holds = [i for i, t in enumerate(fields) if re.search(r'\bExpression\b|\bConstructorSlot\b', t)]
+            vrows.append((name, len(fields), holds))
+        out.append("/-- a constructor of `ir::Expression`: name, number of fields, the fields that hold expressions (`Box<Expression>`,\n"
+                   "`Vec<Expression>`, `Vec<ConstructorSlot>`) -/\n"
+                   "structure Ctor where\n  name : String\n  arity : Nat\n  exprFields : List Nat\n  deriving DecidableEq, Repr\n\n")
+        out.append("def irExpressionCtors : List Ctor := [\n" + ",\n".join(
+            f"  ⟨{lean_str(n)}, {a}, [{', '.join(map(str, h))}]⟩" for n, a, h in vrows) + "\n]\n\n")
+
+        # ---- the struct half of the Cast arm
+        _, earms, _ = first_match(ebody, r'^expr$')
+        cast = None
+        for pats, guard, result in match_arms(earms):
+            if pats == ["ir::Expression::Cast(type_id, expr)"]:
+                cast = normws(result)
+        if cast is None:
+            raise ExtractError("msl generate_expression: Cast arm not found")
+        i = cast.find("if to_struct {")
+        if i < 0:
+            raise ExtractError("msl Cast arm: `if to_struct {` not found")
+        j = matching(cast, i + len("if to_struct "))
+        sbody = cast[i + len("if to_struct {"):j]
+        # the aggregate branch: `} else { <count fn> let member_count = …; <guard> if no_side_effects { … } else { return Err(..) } }`
+        k = sbody.find("let member_count = get_member_count(unmod_id, context.module);")
+        if k < 0:
+            raise ExtractError("msl Cast arm: member_count not computed as modelled")
+        rest = sbody[k + len("let member_count = get_member_count(unmod_id, context.module);"):].strip()
+        count_fn = ("fn get_member_count(id: ir::TypeId, module: &ir::Module) -> usize { let id = module.type_registry.remove_modifier(id); "
+                    "let tyl = module.type_registry.get_type_layer(id); match tyl { ir::TypeLayer::Array(inner_id, Some(len)) => { "
+                    "get_member_count(inner_id, module) * len as usize } ir::TypeLayer::Array(_, None) => { panic!(\"Can not cast to unbounded array\") } "
+                    "ir::TypeLayer::Struct(id) => { let sd = &module.struct_registry[id.0 as usize]; let mut count = 0; "
+                    "for member in &sd.members { count += get_member_count(member.type_id, module); } count } _ => 1, } }")
+        out.append("/-- `get_member_count`: arrays multiply, structs add their members up, everything else (scalars, vectors, matrices,\n"
+                   "enums, objects) is one element; an unbounded array panics -/\n"
+                   f"def memberCountAsModelled : Bool := {lb(count_fn in sbody)}\n\n")
+        # optional local helper `fn <name>(expr: &ir::Expression) -> bool { match expr { … } }` before the guard
+        helper = None
+        hm = re.match(r'fn ([a-z_]+)\(expr: &ir::Expression\) -> bool \{', rest)
+        if hm:
+            a = hm.end() - 1
+            b = matching(rest, a)
+            helper = (hm.group(1), rest[a + 1:b].strip())
+            rest = rest[b + 1:].strip()
+        gm_ = re.match(r'let no_side_effects = (.*?); if no_side_effects \{', rest)
+        if not gm_:
+            raise ExtractError("msl Cast arm: `let no_side_effects = …; if no_side_effects {` not found")
+        gexpr = gm_.group(1).strip()
+        tail = rest[gm_.end() - 1:]
+        tb = matching(tail, 0)
+        then_body = normws(tail[1:tb])
+        else_part = normws(tail[tb + 1:])
+        emit_ok = then_body == ("let ty = generate_type_id(*type_id, context)?; let inits = (0..member_count) "
+                                ".map(|_| ast::Initializer::Expression(Located::none(inner.clone()))) .collect(); "
+                                "ast::Expression::BracedInit(Box::new(ty), inits)")
+        else_ok = else_part.startswith("else { return Err(GenerateError::UnsupportedCast); }")
+        if not else_ok:
+            print("MslDupSites: else part", repr(else_part[:200]), file=sys.stderr)
+        out.append("/-- accepted: `BracedInit(type, [inner; member_count])`, the one generated operand copied once per element -/\n"
+                   f"def structCastRepeatsInnerPerElement : Bool := {lb(emit_ok)}\n"
+                   "/-- refused: `Err(UnsupportedCast)` -/\n"
+                   f"def structCastRefusalIsDiagnostic : Bool := {lb(else_ok)}\n\n")
+
+        def parse_guard_match(mtext, self_name):
+            """arms of `match <scrutinee> { … }` -> (rows, default)"""
+            _, arms_text, _ = first_match(mtext, None)
+            rows, default = [], None
+            for pats, guard, result in match_arms(arms_text):
+                if guard is not None:
+                    raise ExtractError("struct cast guard: match arm with an `if` guard")
+                r = normws(result)
+                if pats == ["_"]:
+                    default = r
+                    continue
+                for p in pats:
+                    pm = re.fullmatch(r'ir::Expression::([A-Za-z]+)(?:\((.*)\))?', p)
+                    if not pm:
+                        raise ExtractError(f"struct cast guard: pattern {p!r}")
+                    binders = [normws(x) for x in split_top(pm.group(2), ',')] if pm.group(2) else []
+                    if r == "true":
+                        rec = []
+                    else:
+                        rec = []
+                        for part in [x.strip() for x in r.split("&&")]:
+                            cm = re.fullmatch(re.escape(self_name or "\0") + r'\(([a-z_]+)\)', part)
+                            if not cm or cm.group(1) not in binders:
+                                raise ExtractError(f"struct cast guard: arm result {r!r}")
+                            rec.append(binders.index(cm.group(1)))
+                    rows.append((pm.group(1), len(binders), sorted(rec)))
+            if default is None:
+                raise ExtractError("struct cast guard: no `_` arm")
+            return rows, default
+
+        if helper is None and gexpr.startswith("match **expr {"):
+            rows, default = parse_guard_match(gexpr, None)
+            or_count_one = False
+            if default == "member_count == 1":
+                default, or_count_one = "false", True
+        elif helper is not None:
+            rows, default = parse_guard_match(helper[1], helper[0])
+            gx = re.fullmatch(re.escape(helper[0]) + r'\(expr\)( \|\| member_count == 1)?', gexpr)
+            if not gx:
+                raise ExtractError(f"struct cast guard: {gexpr!r}")
+            or_count_one = gx.group(1) is not None
+        else:
+            raise ExtractError(f"struct cast guard: {gexpr!r}")
+        if default != "false":
+            raise ExtractError(f"struct cast guard: default arm {default!r}")
+        out.append("/-- one accepting arm of the side-effect test that protects the repetition: constructor, number of fields in the\n"
+                   "pattern, the fields the test recurses into (an accepting arm without recursion is `true`) -/\n"
+                   "structure GuardRow where\n  ctor : String\n  arity : Nat\n  recursed : List Nat\n  deriving DecidableEq, Repr\n\n")
+        out.append("def structCastGuard : List GuardRow := [\n" + ",\n".join(
+            f"  ⟨{lean_str(n)}, {a}, [{', '.join(map(str, r))}]⟩" for n, a, r in rows) + "\n]\n\n")
+        out.append("/-- everything else is repeated only when the struct has exactly one element (then nothing is repeated) -/\n"
+                   f"def structCastAcceptsAnythingForOneElement : Bool := {lb(or_count_one)}\n")
+        out.append(T.footer("MslDupSites"))
+        return "".join(out)
